@@ -68,6 +68,9 @@ type Case struct {
 	GPUs         int          `json:"gpus"`
 	PageSize     int          `json:"page_size"`
 	PagesPerGPU  int          `json:"pages_per_gpu"`
+	// Skew (a multiple of the 64-byte transfer unit, smaller than the page size): every page
+	// starts Skew bytes after a multiple of the page size (an 8 KiB page on an odd 4 KiB frame)
+	Skew int `json:"skew,omitempty"`
 	Mem          []MemCfg     `json:"mem"`
 	Ctrl         []CtrlCfg    `json:"ctrl"`
 	Pages        [][]PageInit `json:"pages"`
@@ -75,13 +78,18 @@ type Case struct {
 	RemoteDelays []int        `json:"remote_delays,omitempty"` // empty: akita direct connection
 }
 
-func (c Case) bankSize() uint64 { return uint64(c.PagesPerGPU * c.PageSize) }
+func (c Case) bankSize() uint64 {
+	if c.Skew > 0 {
+		return uint64((c.PagesPerGPU + 1) * c.PageSize)
+	}
+	return uint64(c.PagesPerGPU * c.PageSize)
+}
 
 // base returns the first physical address of GPU g (GPU ids start at 1 in the
 // platform's physical address map; bank 0 is the CPU).
 func (c Case) base(g int) uint64 { return uint64(g+1) * c.bankSize() }
 
-func (c Case) pageAddr(g, p int) uint64 { return c.base(g) + uint64(p*c.PageSize) }
+func (c Case) pageAddr(g, p int) uint64 { return c.base(g) + uint64(c.Skew) + uint64(p*c.PageSize) }
 
 // window is the address range of every storage that is compared at the end.
 func (c Case) window() uint64 { return uint64(c.GPUs+2) * c.bankSize() }
@@ -108,6 +116,9 @@ func genCase(t *rapid.T) Case {
 	k := rapid.SampledFrom([]int{1, 1, 2, 2, 3, 4, 5, 7, 8, 16, 64}).Draw(t, "k")
 	c.PageSize = transferUnit * k
 	c.PagesPerGPU = rapid.IntRange(2, 5).Draw(t, "pages")
+	if k > 1 && rapid.IntRange(0, 3).Draw(t, "skewed") == 0 {
+		c.Skew = transferUnit * rapid.IntRange(1, k-1).Draw(t, "skew")
+	}
 	// shape "burst": several requests for one PMC back to back, each to a fresh
 	// page, with a requester that is slow to take completions (exercises the
 	// queue at the control port and refused completion sends)
@@ -559,6 +570,7 @@ func RunCase(c Case) (res stats.Result) {
 		}
 	}
 	add(multi, "multi-chunk-page")
+	add(c.Skew > 0, "pages-not-naturally-aligned")
 	add(c.PageSize >= 8*transferUnit, "page>=8-chunks")
 	add(!multi, "single-chunk-page")
 	add(labelQueued, "request-queued-at-busy-pmc")
@@ -651,12 +663,15 @@ func (c Case) describe(addr uint64) string {
 	if bank == 0 || bank > c.GPUs {
 		return "outside every GPU's range"
 	}
-	off := addr - c.base(bank-1)
+	if addr < c.base(bank-1)+uint64(c.Skew) {
+		return fmt.Sprintf("GPU%d, before its first page", bank-1)
+	}
+	off := addr - c.base(bank-1) - uint64(c.Skew)
 	return fmt.Sprintf("GPU%d page %d byte +%d", bank-1, off/uint64(c.PageSize), off%uint64(c.PageSize))
 }
 
 func validate(c Case) error {
-	if c.GPUs < 2 || c.PageSize <= 0 || c.PageSize%transferUnit != 0 || c.PagesPerGPU < 1 {
+	if c.GPUs < 2 || c.PageSize <= 0 || c.PageSize%transferUnit != 0 || c.PagesPerGPU < 1 || c.Skew < 0 || c.Skew >= c.PageSize || c.Skew%transferUnit != 0 {
 		return fmt.Errorf("bad geometry")
 	}
 	if len(c.Mem) != c.GPUs || len(c.Ctrl) != c.GPUs || len(c.Pages) != c.GPUs {
